@@ -39,7 +39,8 @@ def run(tier):
         p = vlib.run_cmd([bins["vh_lib"], "patch-cases", cpath, opath, str(vlib.seed()), tier, copia,
                           os.path.join(work, "cli")], timeout=3000)
         if p.returncode != 0:
-            raise vlib.ToolError("vh_lib patch-cases failed: " + p.stderr.decode()[-2000:])
+            vlib.harness_died(vd, "vh_lib patch-cases", p)
+            return vd.finish()
         nonconf = 0
         for line in open(opath):
             d = json.loads(line)
@@ -67,7 +68,8 @@ def run(tier):
             p = vlib.run_cmd([bins["vh_lib"], "patch-random", str(m), tpath, str(vlib.seed() * 31 + k), copia,
                               os.path.join(work, f"pr{k}")], timeout=3000)
             if p.returncode != 0:
-                raise vlib.ToolError("vh_lib patch-random failed: " + p.stderr.decode()[-2000:])
+                vlib.harness_died(vd, "vh_lib patch-random", p)
+                return vd.finish()
             r = tlc("PatchTrace", "PatchTrace.cfg", workers=1, timeout=1500, env_extra={"TRACE": tpath}, depth_first=True)
             res = r.payloads.get("RESULT", [])
             if not res or res[0]["n"] != m:
